@@ -1,5 +1,5 @@
 SPECIFICATION Spec
 CONSTANTS
   Wide = FALSE
-INVARIANTS Total RoundTrip Sized Suffix Prefix Sizes
+INVARIANTS Total RoundTrip Sized Suffix Prefix Sizes Printable
 CHECK_DEADLOCK FALSE
